@@ -242,6 +242,75 @@ func main() {
 			}
 		}
 	}
+	// (1b) a nil pointer in a required / default struct-typed field is written as an empty struct
+	for ci, it := range items {
+		if it.Exit != 0 || it.BuildErr != "" || (ci > 0 && !thorough) {
+			continue
+		}
+		var reqs []*gen.Req
+		type nv struct {
+			r     *root
+			id    int32
+			fn    string
+			v     *refsem.Val
+			union bool
+		}
+		var nvs []nv
+		for _, r := range roots {
+			if r.s.Cat == "union" {
+				continue
+			}
+			if _, ok := it.Types[r.name]; !ok {
+				continue
+			}
+			dom := refsem.StructDomain(r.s, 1, false)
+			if len(dom) == 0 {
+				continue
+			}
+			ids := refsem.FieldIDs(r.s.Fields)
+			for i, f := range r.s.Fields {
+				if f.Req == idl.ReqOptional || f.Type.Final().Kind != idl.StructK {
+					continue
+				}
+				v := dom[0].Clone()
+				v.Set(ids[i], refsem.Nil())
+				nvs = append(nvs, nv{r, ids[i], f.Name, v, f.Type.Final().Struct.Cat == "union"})
+				reqs = append(reqs, &gen.Req{Type: gen.RegKey(it, r.name), Op: "write", Val: v})
+			}
+		}
+		resps := c.do(reqs)
+		for i, rs := range resps {
+			x := nvs[i]
+			run.Eval(fmt.Sprintf("write-nil-struct|%d|%s|%s", ci, x.r.name, x.fn), true)
+			vv := &vec{r: x.r, v: x.v}
+			if x.union {
+				// a nil union has no member set: Write must refuse it (an error, not a panic, not bytes)
+				switch {
+				case rs.Panic != "":
+					c.viol("write-panic:nil-union-field", fmt.Sprintf("%s: Write panics on a nil union in field %d (%s): %s", x.r.name, x.id, x.fn, rs.Panic), vv, configs[ci], nil)
+				case rs.Err == "":
+					c.viol("union-not-exactly-one-accepted:nil-union-field", fmt.Sprintf("%s: Write accepts a nil union in the non-optional field %d (%s): %s", x.r.name, x.id, x.fn, rs.Bytes), vv, configs[ci], nil)
+				default:
+					c.outcomes["write-nil-union-refused"]++
+				}
+				continue
+			}
+			if !c.ok(rs, "write", vv, configs[ci]) {
+				continue
+			}
+			got, _ := hex.DecodeString(rs.Bytes)
+			dec, _, err := refsem.DecodeStruct(x.r.s.Fields, got)
+			if err != nil {
+				c.viol("write-undecodable:nil-struct-field", fmt.Sprintf("%s: %v (%x)", x.r.name, err, got), vv, configs[ci], nil)
+				continue
+			}
+			if dec.Get(x.id) == nil {
+				c.viol("write-omits-non-optional-field:nil-struct", fmt.Sprintf("%s: field %d (%s) holds a nil pointer and is not optional: it is absent from the bytes written (%x)", x.r.name, x.id, x.fn, got), vv, configs[ci], map[string]any{"written": hex.EncodeToString(got)})
+				continue
+			}
+			c.outcomes["write-nil-struct-ok"]++
+		}
+	}
 	// (2) read under every configuration
 	for ci, it := range items {
 		if it.Exit != 0 || it.BuildErr != "" {
@@ -350,7 +419,16 @@ func (c *checker) checkWritten(v *vec, got []byte, cfg []string) {
 		c.viol("write-wrong-value:"+shapeOf(v), fmt.Sprintf("%s: written bytes decode to a different value: %s (want/got)", v.r.name, d), v, cfg, map[string]any{"written": hex.EncodeToString(got)})
 		return
 	}
-	// optional unset must be absent (SameStruct treats default==unset; check presence strictly when no default)
+	// required / default fields are always present on the wire
+	if v.r.s.Cat != "union" {
+		ids := refsem.FieldIDs(v.r.s.Fields)
+		for i, f := range v.r.s.Fields {
+			if f.Req != idl.ReqOptional && dec.Get(ids[i]) == nil {
+				c.viol("write-omits-non-optional-field:"+shapeOf(v), fmt.Sprintf("%s: field %d (%s, not optional) is absent from the bytes written", v.r.name, ids[i], f.Name), v, cfg, map[string]any{"written": hex.EncodeToString(got)})
+				return
+			}
+		}
+	}
 	c.outcomes["write-ok"]++
 }
 
